@@ -5,7 +5,7 @@
 From Coq Require Import List Arith Bool.
 Import ListNotations.
 From C17 Require Import Sem Progs Static Annot FutRaw.
-From C17 Require Exec ExecLive Ss.
+From C17 Require Exec ExecLive Ss FutCopy0.
 
 (* Data-race freedom of the model: whenever a thread is about to execute an instruction that reads
    or writes a shared variable or the callback queue, it owns the mutex that protects it
@@ -161,3 +161,16 @@ Theorem c17_ss_exec_once : forall lims rs k s, reach P (init_ss lims rs k) s ->
                             forall t, t < nthr s -> stat (thr s t) = Done).
 Proof. exact Ss.ss_exec_once. Qed.
 Print Assumptions c17_ss_exec_once.
+
+(* ---- FutureImpl with TWO reference holders (scenario init_fut_copy 0: the owner copies its Future for the
+   setter thread (FutureImpl::Ref), starts it, calls Get and drops its reference; the setter calls Set and
+   drops its copy; whoever drops the last reference deletes the FutureImpl), every schedule including
+   spurious wake-ups: no hazard is reachable (no step touches the FutureImpl after it was deleted, it is
+   deleted exactly once and never while its mutex is held or a thread waits on it), and a returned Get
+   returned the value set, after Set.  The variant with further getter threads (init_fut_copy g, g > 0) is
+   NOT proved for all schedules. *)
+Theorem c17_future_two_holders : forall s, reach P (init_fut_copy 0) s ->
+  fault s = None /\
+  (forall t k v, In (t, k, v) (outs s) -> k = OUT_GET -> v = THE_VALUE /\ var s ISSET = 1).
+Proof. exact FutCopy0.fut_two_holders_safe. Qed.
+Print Assumptions c17_future_two_holders.
